@@ -91,6 +91,7 @@ type Exec struct {
 	locks      map[*value]*lockState
 	wgs        map[*value]*int
 	pools      map[*value][]value
+	tlsServer  map[*value]*tlsState
 
 	fmtSym   Str // symbolic Error()/String() text of the operand toNative last gave up on
 	fmtSymOK bool
